@@ -25,6 +25,13 @@ pub fn upper_unit(c: u16) -> u16 {
         0x61..=0x7A => c - 0x20,                    // a-z
         0xE0..=0xF6 | 0xF8..=0xFE => c - 0x20,      // Latin-1 lower
         0xFF => 0x178,                              // y diaeresis
+        0xB5 => 0x39C,                              // micro sign -> Greek capital mu
+        0x131 => 0x49,                              // dotless i -> I
+        0x17F => 0x53,                              // long s -> S
+        // Latin Extended-A pairs (upper, lower) = (even, odd)
+        0x100..=0x12F | 0x132..=0x137 | 0x14A..=0x177 if c & 1 == 1 => c - 1,
+        // ... and (odd, even)
+        0x139..=0x148 | 0x179..=0x17E if c & 1 == 0 => c - 1,
         0x3B1..=0x3C1 | 0x3C3..=0x3C9 => c - 0x20,  // Greek alpha..omega
         0x3C2 => 0x3A3,                             // final sigma
         0x430..=0x44F => c - 0x20,                  // Cyrillic a..ya
@@ -86,6 +93,8 @@ fn map_char_lower(c: char) -> char {
         0x41..=0x5A => v + 0x20,
         0xC0..=0xD6 | 0xD8..=0xDE => v + 0x20,
         0x178 => 0xFF,
+        0x100..=0x12F | 0x132..=0x137 | 0x14A..=0x177 if v & 1 == 0 => v + 1,
+        0x139..=0x148 | 0x179..=0x17E if v & 1 == 1 => v + 1,
         0x391..=0x3A1 | 0x3A3..=0x3A9 => v + 0x20,
         0x410..=0x42F => v + 0x20,
         0xFF21..=0xFF3A => v + 0x20,
